@@ -25,23 +25,23 @@ func (e Event) String() string {
 
 // CartSpec describes the cartridge image put on the simulated disk.
 type CartSpec struct {
-	Kind     string `json:"kind"`               // rom, mbc1, mbc2, mbc3, mbc5, raw, file
-	Type     uint8  `json:"type"`               // header byte 0147
-	RomCode  uint8  `json:"rom_code"`           // header byte 0148
-	RamCode  uint8  `json:"ram_code"`           // header byte 0149
-	Program  string `json:"program,omitempty"`  // hex, placed at Entry
-	Entry    uint16 `json:"entry,omitempty"`    // where Program is placed in ROM bank 0/1 (default 0150); 0100 jumps there
-	RawHex   string `json:"raw_hex,omitempty"`  // kind raw: the whole image (small images only)
-	RawSeed  uint64 `json:"raw_seed,omitempty"` // kind raw: image generated from this seed
-	RawLen   int    `json:"raw_len,omitempty"`  //   with this length
-	File     string `json:"file,omitempty"`     // kind file: path of a ROM relative to /repo/gameboy/testdata
-	Missing  bool   `json:"missing,omitempty"`  // the file does not exist
-	FillSeed uint64 `json:"fill_seed,omitempty"`
-	Handler  string `json:"handler,omitempty"`  // hex (at most 8 bytes) placed at every interrupt vector instead of NOP;RETI
-	CollidingPages  bool `json:"colliding_pages,omitempty"` // two pairs of distinct pages with equal checksums (CRC-32; byte sum)
-	HeaderEveryPage bool `json:"header_every_page,omitempty"` // logo and header bytes repeated at the start of every page
-	Program2 string `json:"program2,omitempty"` // hex, placed at the window address of Entry in page Page2
-	Page2    int    `json:"page2,omitempty"`
+	Kind            string `json:"kind"`               // rom, mbc1, mbc2, mbc3, mbc5, raw, file
+	Type            uint8  `json:"type"`               // header byte 0147
+	RomCode         uint8  `json:"rom_code"`           // header byte 0148
+	RamCode         uint8  `json:"ram_code"`           // header byte 0149
+	Program         string `json:"program,omitempty"`  // hex, placed at Entry
+	Entry           uint16 `json:"entry,omitempty"`    // where Program is placed in ROM bank 0/1 (default 0150); 0100 jumps there
+	RawHex          string `json:"raw_hex,omitempty"`  // kind raw: the whole image (small images only)
+	RawSeed         uint64 `json:"raw_seed,omitempty"` // kind raw: image generated from this seed
+	RawLen          int    `json:"raw_len,omitempty"`  //   with this length
+	File            string `json:"file,omitempty"`     // kind file: path of a ROM relative to /repo/gameboy/testdata
+	Missing         bool   `json:"missing,omitempty"`  // the file does not exist
+	FillSeed        uint64 `json:"fill_seed,omitempty"`
+	Handler         string `json:"handler,omitempty"`           // hex (at most 8 bytes) placed at every interrupt vector instead of NOP;RETI
+	CollidingPages  bool   `json:"colliding_pages,omitempty"`   // two pairs of distinct pages with equal checksums (CRC-32; byte sum)
+	HeaderEveryPage bool   `json:"header_every_page,omitempty"` // logo and header bytes repeated at the start of every page
+	Program2        string `json:"program2,omitempty"`          // hex, placed at the window address of Entry in page Page2
+	Page2           int    `json:"page2,omitempty"`
 	// HandlerTag: every byte A5 of Handler is replaced by the low byte of the vector it is placed at
 	HandlerTag bool `json:"handler_tag,omitempty"`
 }
